@@ -277,3 +277,47 @@ pub fn borrow_where(ctx: &mut Ctx, source_property: &str, from_rule: &str, to_ru
         ctx.violate(to_rule, &v.key, &v.file, v.line, &v.msg);
     }
 }
+
+/// A pass of `Validator::link` over the definitions: a top-level `while let Some(key) = LIST.pop()` or `for key in LIST…`
+/// statement whose body works on `self.tlds`. One loop is one pass over *all* definitions.
+pub struct KeyLoop {
+    pub stmt_index: usize,
+    pub body: syn::Block,
+    /// the variable the keys are taken from (`keys` in `keys.pop()`, `keys.clone()`, `&keys`, `keys.iter().rev()`)
+    pub work_list: String,
+}
+
+pub fn link_key_loops(f: &FnInfo) -> Vec<KeyLoop> {
+    fn root_ident(e: &syn::Expr) -> String {
+        match e {
+            syn::Expr::MethodCall(mc) => root_ident(&mc.receiver),
+            syn::Expr::Reference(r) => root_ident(&r.expr),
+            syn::Expr::Paren(p) => root_ident(&p.expr),
+            syn::Expr::Field(fl) => tok(fl),
+            syn::Expr::Path(p) => tok(p),
+            o => tok(o),
+        }
+    }
+    let mut out = vec![];
+    for (i, st) in f.block.stmts.iter().enumerate() {
+        let e = match st {
+            syn::Stmt::Expr(e, _) => e,
+            _ => continue,
+        };
+        let (body, list) = match e {
+            syn::Expr::While(w) => match &*w.cond {
+                syn::Expr::Let(l) => match &*l.expr {
+                    syn::Expr::MethodCall(mc) if ["pop", "pop_front", "pop_back", "next"].contains(&mc.method.to_string().as_str()) => (&w.body, root_ident(&mc.receiver)),
+                    _ => continue,
+                },
+                _ => continue,
+            },
+            syn::Expr::ForLoop(l) => (&l.body, root_ident(&l.expr)),
+            _ => continue,
+        };
+        if tok(body).contains("self.tlds") {
+            out.push(KeyLoop { stmt_index: i, body: body.clone(), work_list: list });
+        }
+    }
+    out
+}
